@@ -37,6 +37,15 @@ RULE = (
     "which key-tuple order and canonical relpath-string order differ, and from names on which a careless relpath<->key "
     "conversion collapses entries (hidden .gitkeep / .config/settings / ..data, .env next to env, leading or trailing "
     "blanks and dots, case and Unicode-normalisation twins). "
+    "Fixed in every run (tools/COVERAGE_AUDIT.md; counts in coverage.input_dimensions): names with backslash, Cyrillic, "
+    "CJK, emoji, non-NFC next to its NFC twin, surrogate-escaped undecodable bytes, a .dir suffix, 1 and 200 "
+    "characters, prefix siblings, case twins; the empty listing on each position; fast-forwards both ways, ours == "
+    "theirs, all equal; the policies None / [add] / [add,remove] / [add,remove,change] / [] x {none, add, remove, "
+    "change} on ours x the same on theirs + the same-path combinations, on _merge and on merge(); entries differing "
+    "only in metadata, only in the hash name, only in the obj_name label; a file that is a directory prefix on the "
+    "other side; an input identifier ending in hex d and the empty listing's identifier; stores with verify on / "
+    "read-only; listings planted as bytes (sorted or shuffled records) vs built with Tree.add + digest + "
+    "add_update_tree, dictionaries built directly vs through Tree.add + as_dict; missing and corrupt objects. "
     "quick: seeded samples of all streams + a sample of sweep rows; thorough: additionally on _merge ALL triples "
     "over 3 keys x (absent + 3 values) under add+remove+change (+ 2000 sampled rows under the other policies), ALL "
     "triples over 3 keys x (absent + 2 values) x 9 policies, ALL triples over 2 keys x (absent + 3 real values) x 9 "
@@ -56,6 +65,9 @@ ASSUMPTIONS = [
     "`except KeyError` = exactly KeyError among the modelled classes) is validated by the merge / sweep / tree streams",
     "dictdiffer.diff/patch are environment: modelled for flat dicts with tuple keys and validated here against "
     "the installed library (0.10.x) on every run",
+    "a value that differs from another only in HashInfo.obj_name (eq=False, a label) is the SAME value: merging never "
+    "treats it as a change and may return either label; through merge() all entries of a store carry that store's hash "
+    "name, so a hash-name-only difference is reachable on _merge only",
     "merge(): listings are planted as directory objects; an md5 store loads only {md5, relpath} records "
     "(HashInfo.from_dict rejects extra fields - ValueError, C20's subject), records with size/isexec are exercised "
     "through an md5-dos2unix store; a missing object is FileNotFoundError (model: LoadError), not judged",
@@ -69,7 +81,8 @@ IMPORTS = ("From Coq Require Import NArith List.\nFrom stdpp Require Import gmap
            "From DvcData Require Import Model.Merge Proofs.MergeDigest.")
 
 KEY_POOL = [("a",), ("d", "b"), ("d", "c"), ("d", "e", "f"), ("é",), ("d",), ("b c",), ("",), ("x", ""),
-            ("\U0001f600", "z"), ("d.c",), ("d", "e-f")]
+            ("\U0001f600", "z"), ("d.c",), ("d", "e-f"),
+            (".gitkeep",), ("Readme",), ("readme",), ("we\\ird",)]
 KIND = {"add": "KAdd", "remove": "KRemove", "change": "KChange"}
 POLS = [None, [], ["add"], ["remove"], ["change"], ["add", "remove"], ["add", "change"], ["remove", "change"],
         ["add", "remove", "change"]]
@@ -118,6 +131,107 @@ def dict_of(ks, cells):
 
 
 # ---------------------------------------------------------------------------------------------
+# input dimensions actually exercised by this run (tools/COVERAGE_AUDIT.md) -> evidence
+
+DIMS: dict = {}
+
+
+def dim(name, k=1):
+    DIMS[name] = DIMS.get(name, 0) + k
+
+
+def name_dims(keys):
+    """dimensions of the NAMES of the entries present in a case"""
+    import unicodedata
+
+    out = set()
+    rel = {"/".join(k) for k in keys}
+    for k in keys:
+        for part in k:
+            if "\\" in part:
+                out.add("name:backslash")
+            if " " in part:
+                out.add("name:space")
+            if part.startswith("."):
+                out.add("name:leading-dot")
+            if part.endswith(".dir"):
+                out.add("name:ends-with-.dir")
+            if any(0xDC80 <= ord(c) <= 0xDCFF for c in part):
+                out.add("name:surrogate-escaped-undecodable")
+            elif any(ord(c) > 0xFFFF for c in part):
+                out.add("name:non-BMP(emoji)")
+            if any(0x400 <= ord(c) < 0x500 for c in part):
+                out.add("name:cyrillic")
+            if any(0x4E00 <= ord(c) < 0xA000 for c in part):
+                out.add("name:CJK")
+            if any(0x80 <= ord(c) < 0x400 or 0x300 <= ord(c) < 0x370 for c in part):
+                out.add("name:non-ASCII")
+            try:
+                if unicodedata.normalize("NFC", part) != part:
+                    out.add("name:not-NFC")
+                    if any(unicodedata.normalize("NFC", q) == unicodedata.normalize("NFC", part) and q != part
+                           for k2 in keys for q in k2):
+                        out.add("name:not-NFC-next-to-NFC-twin")
+            except Exception:  # noqa: BLE001
+                pass
+            if len(part) >= 200:
+                out.add("name:200-chars")
+            if len(part) == 1:
+                out.add("name:1-char")
+            if part == "":
+                out.add("name:empty-part")
+            if any(q != part and q.lower() == part.lower() for k2 in keys for q in k2):
+                out.add("name:case-twins")
+            if any(q != part and q.startswith(part) and len(q) > len(part) for k2 in keys for q in k2):
+                out.add("name:sibling-is-string-prefix")
+        if len(k) >= 3:
+            out.add("shape:depth>=3")
+        if len(k) == 0:
+            out.add("shape:root-key-()")
+        if any(len(k2) > len(k) and tuple(k2[:len(k)]) == tuple(k) for k2 in keys) and len(k) > 0:
+            out.add("shape:file-is-directory-prefix-of-another-entry")
+    dirs = {"/".join(k[:i]) for k in keys for i in range(1, len(k))}
+    if any(n != d and n.startswith(d) and len(n) > len(d) and n[len(d)] < "/" for d in dirs for n in dirs | rel):
+        out.add("name:dir-next-to-sibling-sorting-before-slash")
+    return out
+
+
+def case_dims(stream, keys, a, o, t, pol, extra=()):
+    """record the dimensions of one (ancestor, ours, theirs, policy) case; a/o/t: key -> class dicts"""
+    ds = set(extra)
+    present = [k for k in keys if k in a or k in o or k in t]
+    ds |= name_dims(present)
+    for nm, d in (("ancestor", a), ("ours", o), ("theirs", t)):
+        if not d:
+            ds.add(f"shape:empty-listing:{nm}")
+        if len(d) == 1:
+            ds.add("shape:one-entry-listing")
+    if a == o:
+        ds.add("shape:ancestor==ours(fast-forward-to-theirs)")
+    if a == t:
+        ds.add("shape:ancestor==theirs(fast-forward-to-ours)")
+    if o == t:
+        ds.add("shape:ours==theirs")
+    if a == o == t:
+        ds.add("shape:all-three-equal")
+    for d in (a, o, t):
+        if len(set(d.values())) < len(d):
+            ds.add("shape:same-value-under-two-paths")
+    pn = "None" if pol is None else "[" + ",".join(pol) + "]"
+    ds.add("policy:" + pn)
+    ko = sorted(kinds_of([a.get(k, -1) + 1 for k in keys], [o.get(k, -1) + 1 for k in keys]))
+    kt = sorted(kinds_of([a.get(k, -1) + 1 for k in keys], [t.get(k, -1) + 1 for k in keys]))
+    side = "both" if ko and kt else "ours" if ko else "theirs" if kt else "none"
+    ds.add(f"edits:{side}")
+    if pn in ("None", "[]", "[add]", "[add,remove]", "[add,remove,change]"):
+        for kd in set(ko) | set(kt):
+            w = "both" if kd in ko and kd in kt else "ours" if kd in ko else "theirs"
+            ds.add(f"policy x edit:{pn} x {kd} on {w}")
+    for d in ds:
+        dim(f"{stream}|{d}")
+
+
+# ---------------------------------------------------------------------------------------------
 # values
 
 
@@ -133,6 +247,7 @@ def value_pool():
         (None, HashInfo("md5", h[3])),
         (Meta(isdir=True, nfiles=2), HashInfo("md5", h[4] + ".dir")),
         (Meta(size=1), None),
+        (Meta(size=1), HashInfo("md5-dos2unix", h[1])),  # differs from class 0 by the hash NAME only
     ]
 
 
@@ -155,8 +270,13 @@ class Values:
         self.by_ident = {ident(v): i for i, v in enumerate(pool)}
         assert len(self.by_ident) == len(pool)
 
-    def mk(self, i):
-        return copy.deepcopy(self.pool[i])
+    def mk(self, i, rng=None):
+        v = copy.deepcopy(self.pool[i])
+        if rng is not None and isinstance(v, tuple) and v[1] is not None and rng.random() < 0.3:
+            # HashInfo.obj_name is a label (eq=False): a value that differs only in it is the SAME value
+            v[1].obj_name = rng.choice(["data/x.csv", "lbl", ""])
+            dim("value:obj_name-label")
+        return v
 
     def cls(self, v):
         return self.by_ident.get(ident(v), 777)
@@ -166,7 +286,16 @@ class Values:
         ks = list(d)
         if rng is not None:
             rng.shuffle(ks)
-        return {k: self.mk(d[k]) for k in ks}
+        if rng is not None and isinstance(self.pool[0], tuple) and rng.random() < 0.3:
+            # construction route: a Tree built in memory with Tree.add, handed over as Tree.as_dict()
+            from dvc_data.hashfile.tree import Tree
+
+            tr = Tree()
+            for k in ks:
+                tr.add(k, *self.mk(d[k], rng))
+            dim("route:_merge(Tree.add + as_dict)")
+            return tr.as_dict()
+        return {k: self.mk(d[k], rng) for k in ks}
 
     def read(self, real):
         return {k: self.cls(v) for k, v in real.items()}
@@ -178,6 +307,11 @@ class Values:
                 eq = copy.deepcopy(x) == y
                 ne = copy.deepcopy(x) != y
                 if eq != (i == j) or ne == eq:
+                    ok = False
+            if isinstance(x, tuple) and x[1] is not None:
+                lab = copy.deepcopy(x)
+                lab[1].obj_name = "label"
+                if lab != x or not (lab == x) or ident(lab) != ident(x):
                     ok = False
         ctx.obligation("oracle:value-classes", ok,
                        f"{len(self.pool)} generated values: real ==/!= agree with the field identity used by the oracle")
@@ -514,6 +648,20 @@ def merge_item(ctx, vals, case, corpus=False):
         ctx.oracle_fail(sig, next((w for s, w in p2 if s == sig), what), small)
     both = a != o and a != t
     ctx.case(case, both or r1[0] != "ok")
+    vd = set()
+    for k in ks:
+        cl = {d[k] for d in (a, o, t) if k in d}
+        if {0, 1} <= cl:
+            vd.add("value:entries-differ-in-meta-only")
+        if {0, 6} <= cl:
+            vd.add("value:entries-differ-in-hash-name-only(md5 vs md5-dos2unix)")
+        if 3 in cl:
+            vd.add("value:meta-None")
+        if 5 in cl:
+            vd.add("value:hash-None")
+        if 4 in cl:
+            vd.add("value:.dir-entry")
+    case_dims("_merge", ks, a, o, t, case["pol"], vd | {"outcome:" + ("ok" if r1[0] == "ok" else r1[2])})
     ctx.count("merge:" + ("ok" if r1[0] == "ok" else f"err{r1[1]}") + ("/two-sided" if both else "/one-sided"))
     ctx.count("policy:" + ("None" if case["pol"] is None else "+".join(case["pol"]) or "[]"))
     if () in ks:
@@ -543,8 +691,56 @@ CORPUS = [
 ]
 
 
+AUDIT_POLS = [None, ["add"], ["add", "remove"], ["add", "remove", "change"], []]
+
+
+def grid_cases(stream, v2=2, v3=3):
+    """every audited policy value x {no edit, add, remove, change} on ours x the same on theirs (own keys),
+    and the same-path combinations (equal edit, conflicting edit, remove vs change) - fixed, in every run"""
+    def cell(kind):  # (ancestor, side)
+        return {"none": (1, 1), "add": (0, v2), "remove": (1, 0), "change": (1, v2)}[kind]
+
+    out = []
+    ks = [("g", "ours"), ("g", "theirs"), ("keep",)]
+    for pol in AUDIT_POLS:
+        for ko in ("none", "add", "remove", "change"):
+            for kt in ("none", "add", "remove", "change"):
+                (a1, o1), (a2, t2) = cell(ko), cell(kt)
+                out.append({"stream": stream, "keys": ks, "a": [a1, a2, 1], "o": [o1, a2, 1], "t": [a1, t2, 1],
+                            "pol": pol})
+        for a1, o1, t1 in ((0, v2, v2), (0, v2, v3), (1, 0, 0), (1, v2, v2), (1, v2, v3), (1, 0, v2), (1, v2, 0)):
+            out.append({"stream": stream, "keys": [("same", "path"), ("keep",)], "a": [a1, 1], "o": [o1, 1],
+                        "t": [t1, 1], "pol": pol})
+    return out
+
+
+AUDIT_MERGE = [
+    # empty dictionaries on each position, and everywhere
+    {"stream": "merge", "keys": [("a",), ("d", "b")], "a": [0, 0], "o": [1, 0], "t": [0, 3], "pol": None},
+    {"stream": "merge", "keys": [("a",), ("d", "b")], "a": [1, 3], "o": [0, 0], "t": [1, 3], "pol": ["remove"]},
+    {"stream": "merge", "keys": [("a",), ("d", "b")], "a": [1, 3], "o": [1, 3], "t": [0, 0], "pol": None},
+    {"stream": "merge", "keys": [("a",)], "a": [0], "o": [0], "t": [0], "pol": []},
+    # ours == theirs (both made the same edits), all three equal
+    {"stream": "merge", "keys": [("a",), ("d", "b")], "a": [1, 0], "o": [2, 3], "t": [2, 3], "pol": ["add", "change"]},
+    {"stream": "merge", "keys": [("a",), ("d", "b")], "a": [1, 3], "o": [1, 3], "t": [1, 3], "pol": None},
+    # entries differing only in the hash name (class 1 = md5, class 7 = md5-dos2unix, same value): a change
+    {"stream": "merge", "keys": [("a",), ("k",)], "a": [1, 1], "o": [7, 1], "t": [1, 1], "pol": ["change"]},
+    {"stream": "merge", "keys": [("a",), ("k",)], "a": [1, 1], "o": [7, 1], "t": [2, 1], "pol": ["add", "change"]},
+    {"stream": "merge", "keys": [("a",), ("k",)], "a": [1, 0], "o": [7, 0], "t": [1, 4], "pol": None},
+    # a file on one side that is a directory prefix on the other: both entries survive (per-path rule)
+    {"stream": "merge", "keys": [("d",), ("d", "b"), ("k",)], "a": [0, 0, 1], "o": [1, 0, 1], "t": [0, 3, 1], "pol": None},
+    {"stream": "merge", "keys": [("d",), ("d", "b")], "a": [1, 0], "o": [0, 3], "t": [2, 0], "pol": ["add", "remove", "change"]},
+    # names
+    {"stream": "merge", "keys": [("we\\ird.txt",), ("caf\u00e9.txt",), ("cafe\u0301.txt",), ("bad\udcff.bin",)],
+     "a": [1, 2, 0, 0], "o": [1, 2, 3, 0], "t": [1, 2, 0, 4], "pol": None},
+    {"stream": "merge", "keys": [("\u0434\u0430\u043d\u043d\u044b\u0435", "\u0444.txt"), ("\u6570\u636e", "\u6587\u4ef6"),
+                                 ("\U0001f600.png",), ("L" * 200,), ("sub.dir", "x")],
+     "a": [1, 2, 3, 1, 0], "o": [1, 0, 3, 2, 0], "t": [2, 2, 3, 1, 5], "pol": ["add", "remove", "change"]},
+]
+
+
 def stream_merge(ctx, vals, n):
-    items = [merge_item(ctx, vals, c, corpus=True) for c in load_corpus() + CORPUS]
+    items = [merge_item(ctx, vals, c, corpus=True) for c in load_corpus() + CORPUS + AUDIT_MERGE + grid_cases("merge")]
     nv = len(vals.pool)
     for _ in range(n):
         ks = gen_universe(ctx.rng, 1, 5, raw=ctx.rng.random() < 0.04)
@@ -660,6 +856,17 @@ TREE_EDGE = [
     [("\u00e9x",), ("e\u0301x",)],
     [("", "rooted"), ("rooted",)],
     [("~tmp",), ("#x#",), ("-opt",)],
+    # tools/COVERAGE_AUDIT.md, dimension 1
+    [("we\\ird.txt",), ("dir\\sub", "f")],
+    [("\u0434\u0430\u043d\u043d\u044b\u0435", "\u0444\u0430\u0439\u043b.txt")],
+    [("\u6570\u636e", "\u6587\u4ef6")],
+    [("\U0001f600.png",), ("\U0001f4c1", "\U0001f600")],
+    [("caf\u00e9.txt",), ("cafe\u0301.txt",)],
+    [("sub.dir",), ("x.dir", "y")],
+    [("imgs", "a"), ("imgs_raw", "a"), ("imgs.bak",)],
+    [("L" * 200,), ("l",)],
+    [("bad\udcff.bin",), ("\udce9t\udce9", "f")],
+    [("Data", "f"), ("data",)],
 ]
 
 
@@ -720,7 +927,10 @@ def run_tree_case(ctx, case):
     # objects it uses, the identifiers of "missing" objects are never planted
     store = os.path.join(ctx.tmpdir(), "c19-store-" + mode)
     os.makedirs(store, exist_ok=True)
-    odb = impl.local_odb(store, hash_name=mode)
+    writer = impl.local_odb(store, hash_name=mode)
+    flags = {k: True for k in ("verify", "read_only") if case.get(k)}
+    # the store merge() reads from: optionally verifying, optionally read-only (merge only reads)
+    odb = impl.local_odb(store, hash_name=mode, **flags)
     names = {}
     objs = {}  # identifier -> cells of the planted object
     for who in ("a", "o", "t"):
@@ -738,7 +948,30 @@ def run_tree_case(ctx, case):
             oid = impl.md5hex(data + who.encode()) + ".dir"
         names[who] = oid
         if who not in case.get("missing", []):
-            impl.plant(store, oid, data)
+            if who in case.get("corrupt", {}):
+                impl.plant(store, oid, case["corrupt"][who].encode())
+            elif case.get("route") == "save" and oid == impl.dir_oid(
+                    [("/".join(k), table[c - 1][0]) for k, c in zip(ks, cells) if c]):
+                # construction route: the listing is built in memory (Tree.add), digested and saved the way
+                # DVC saves a tree (add_update_tree), instead of planting canonical bytes
+                from dvc_data.hashfile.db import add_update_tree
+                from dvc_data.hashfile.meta import Meta
+                from dvc_data.hashfile.tree import Tree
+
+                tr = Tree()
+                for k, c in zip(ks, cells):
+                    if c:
+                        hx, size, isexec = table[c - 1]
+                        tr.add(k, Meta(size=size, isexec=isexec), HashInfo(mode, hx))
+                tr.digest(with_meta=mode != "md5")
+                pth = os.path.join(store, oid[:2], oid[2:])
+                if os.path.lexists(pth):  # an object of an earlier case (same hashes, other metadata)
+                    os.chmod(pth, 0o644)
+                    os.unlink(pth)
+                tr.oid = oid
+                add_update_tree(writer, tr)
+            else:
+                impl.plant(store, oid, data)
             objs[oid] = list(cells)
     anc = None if names["a"] is None else HashInfo("md5", names["a"])
     if names["a"] is None and case.get("empty_info"):
@@ -772,6 +1005,10 @@ def run_tree_case(ctx, case):
     if case.get("missing"):
         if res[0] != "err" or res[2] != "FileNotFoundError":
             problems.append(("C19:missing-object-not-reported", f"a listing object is absent but merge() gave {res[:3]}"))
+    elif case.get("corrupt"):
+        if res[0] != "err" or res[2] != "ObjectFormatError":
+            problems.append(("C19:corrupt-object-not-reported",
+                             f"a listing object is not a JSON list but merge() gave {res[:3]}"))
     else:
         problems += judge(a, o, t, pol, res[:3] if res[0] == "err" else ("ok", res[1]))
         if res[0] == "ok":
@@ -835,6 +1072,26 @@ def tree_item(ctx, case):
         ctx.oracle_fail(sig, what, small)
     both = a != o and a != t
     ctx.case(case, both or res[0] != "ok")
+    ks = [tuple(k) for k in case["keys"]]
+    table = tree_tables(case["mode"])
+    ex = {"store:" + case["mode"], "route:" + ("Tree.add+digest+add_update_tree" if case.get("route") == "save"
+                                                else "planted-bytes" + ("-shuffled-records" if case.get("shuffle") else "")),
+          "outcome:" + ("ok" if res[0] == "ok" else res[2])}
+    for fl in ("verify", "read_only", "missing", "corrupt", "empty_info"):
+        if case.get(fl):
+            ex.add(f"flag:{fl}")
+    if case["a"] is None:
+        ex.add("flag:ancestor_info=None")
+    for k in ks:
+        cl = {d[k] for d in (a, o, t) if k in d}
+        if len(cl) > 1 and len({table[c][0] for c in cl}) == 1:
+            ex.add("value:entries-differ-in-meta-only")
+    for nm in ("a", "o", "t"):
+        if case[nm] is not None and not any(case[nm]):
+            ex.add("id:input-oid-is-the-empty-listing's")
+        if case.get("oid_tail_d") and nm == "t":
+            ex.add("id:input-oid-ends-in-hex-d")
+    case_dims("merge()", ks, a, o, t, case["pol"], ex)
     ctx.count("tree:" + ("ok" if res[0] == "ok" else f"err{res[1]}") + ("/two-sided" if both else "/one-sided"))
     ctx.count("tree-store:" + case["mode"])
     return (case, term, exp)
@@ -866,11 +1123,72 @@ TREE_CORPUS = [
 ]
 
 
+AUDIT_TREE = [
+    # the empty listing [] (identifier d751713988987e9331980363e24189ce.dir) on each position / everywhere
+    {"mode": "md5", "keys": [("a",), ("d", "b")], "a": [0, 0], "o": [1, 0], "t": [0, 3], "pol": None},
+    {"mode": "md5", "keys": [("a",), ("d", "b")], "a": [1, 3], "o": [0, 0], "t": [1, 3], "pol": ["remove"], "route": "save"},
+    {"mode": "md5", "keys": [("a",), ("d", "b")], "a": [1, 3], "o": [1, 3], "t": [0, 0], "pol": None, "verify": True},
+    {"mode": "md5-dos2unix", "keys": [("a",)], "a": [0], "o": [0], "t": [0], "pol": [], "read_only": True},
+    # fast-forwards both ways, ours == theirs, all equal
+    {"mode": "md5", "keys": [("a",), ("d", "b", "c")], "a": [1, 0], "o": [1, 0], "t": [2, 3], "pol": None, "route": "save"},
+    {"mode": "md5", "keys": [("a",), ("d", "b", "c")], "a": [1, 0], "o": [2, 3], "t": [1, 0], "pol": ["add", "change"]},
+    {"mode": "md5-dos2unix", "keys": [("a",), ("d", "b")], "a": [1, 0], "o": [3, 4], "t": [3, 4], "pol": ["add", "change"],
+     "verify": True, "read_only": True},
+    {"mode": "md5", "keys": [("a",), ("d", "b")], "a": [1, 3], "o": [1, 3], "t": [1, 3], "pol": None},
+    # entries that differ in metadata only (md5-dos2unix store keeps size / isexec): a change like any other
+    {"mode": "md5-dos2unix", "keys": [("a",), ("k",)], "a": [1, 3], "o": [2, 3], "t": [1, 3], "pol": ["change"]},
+    {"mode": "md5-dos2unix", "keys": [("a",), ("k",)], "a": [1, 3], "o": [2, 3], "t": [1, 0], "pol": ["change", "remove"],
+     "route": "save"},
+    {"mode": "md5-dos2unix", "keys": [("a",), ("k",)], "a": [1, 3], "o": [2, 3], "t": [3, 3], "pol": ["change"]},
+    # a file on one side, a directory of that name on the other: both entries survive (per-path rule)
+    {"mode": "md5", "keys": [("d",), ("d", "b"), ("k",)], "a": [0, 0, 1], "o": [1, 0, 1], "t": [0, 3, 1], "pol": None},
+    {"mode": "md5", "keys": [("d",), ("d", "b")], "a": [1, 0], "o": [0, 3], "t": [2, 0], "pol": ["add", "remove", "change"],
+     "route": "save"},
+    # names
+    {"mode": "md5", "keys": [("we\\ird.txt",), ("caf\u00e9.txt",), ("cafe\u0301.txt",), ("bad\udcff.bin",)],
+     "a": [1, 2, 0, 0], "o": [1, 2, 3, 0], "t": [1, 2, 0, 1], "pol": None, "route": "save", "verify": True},
+    {"mode": "md5", "keys": [("\u0434\u0430\u043d\u043d\u044b\u0435", "\u0444.txt"), ("\u6570\u636e", "\u6587\u4ef6"),
+                             ("\U0001f600.png",), ("L" * 200,), ("sub.dir", "x")],
+     "a": [1, 2, 3, 1, 0], "o": [1, 0, 3, 2, 0], "t": [2, 2, 3, 1, 3], "pol": ["add", "remove", "change"]},
+    {"mode": "md5-dos2unix", "keys": [("imgs", "a"), ("imgs_raw", "a"), ("imgs.bak",), ("Data", "f"), ("data",)],
+     "a": [1, 0, 3, 4, 0], "o": [1, 2, 3, 4, 0], "t": [1, 0, 3, 4, 1], "pol": [], "route": "save"},
+    # no ancestor_info at all / a falsy HashInfo(), against an empty side
+    {"mode": "md5", "keys": [("a",), ("b",)], "a": None, "o": [1, 0], "t": [0, 0], "pol": None},
+    {"mode": "md5", "keys": [("a",), ("b",)], "a": None, "o": [1, 0], "t": [0, 2], "pol": ["add"], "empty_info": True,
+     "route": "save", "read_only": True},
+    # faults: an absent object, an object that is not a JSON list / not JSON
+    {"mode": "md5", "keys": [("a",)], "a": [1], "o": [2], "t": [1], "pol": None, "missing": ["t"]},
+    {"mode": "md5", "keys": [("a",)], "a": [1], "o": [2], "t": [1], "pol": None, "corrupt": {"o": "{\"a\": 1}"}},
+    {"mode": "md5", "keys": [("a",)], "a": [1], "o": [2], "t": [3], "pol": None, "corrupt": {"a": "[{\"md5\": "}},
+]
+
+
+def audit_tree_cases():
+    out = [dict(c, stream="tree") for c in AUDIT_TREE]
+    # a listing whose identifier ends in the hex digit d (".dir" is a SUFFIX, not a character set to strip)
+    h = tree_tables("md5")
+    for i in range(4000):
+        if impl.dir_oid([(f"f{i}", h[0][0])])[:-4].endswith("dd"):
+            out.append({"stream": "tree", "mode": "md5", "keys": [(f"f{i}",), ("g",)], "a": [0, 2], "o": [0, 2],
+                        "t": [1, 0], "pol": ["add", "remove"], "oid_tail_d": True})
+            break
+    return out
+
+
 def stream_tree(ctx, n):
     items = []
     for c in TREE_CORPUS:
         items.append(tree_item(ctx, dict(c)))
         items.append(tree_item(ctx, dict(c, o=c["t"], t=c["o"])))
+    for c in audit_tree_cases():
+        if c.get("corrupt"):
+            tree_item(ctx, dict(c))  # ObjectFormatError is outside the model's error kinds: oracle only
+            continue
+        items.append(tree_item(ctx, dict(c)))
+        if not c.get("missing"):
+            items.append(tree_item(ctx, dict(c, o=c["t"], t=c["o"])))
+    for c in grid_cases("tree"):
+        items.append(tree_item(ctx, dict(c, mode="md5", route="save" if len(items) % 3 == 0 else "plant")))
     for _ in range(n):
         mode = ctx.rng.choice(["md5", "md5-dos2unix"])
         nv = len(tree_tables(mode))
@@ -878,6 +1196,12 @@ def stream_tree(ctx, n):
         a, o, t = gen_triple(ctx.rng, len(ks), nv)
         case = {"stream": "tree", "mode": mode, "keys": ks, "a": a, "o": o, "t": t, "pol": gen_pol(ctx.rng, a, o, t),
                 "shuffle": ctx.rng.random() < 0.5}
+        if ctx.rng.random() < 0.3:
+            case["route"] = "save"
+        if ctx.rng.random() < 0.25:
+            case["verify"] = True
+        if ctx.rng.random() < 0.2:
+            case["read_only"] = True
         r = ctx.rng.random()
         if r < 0.12:
             case["a"] = None  # no ancestor: merge against the empty listing
@@ -912,6 +1236,7 @@ def oracle_ok(ctx):
 
 
 def run(ctx):
+    DIMS.clear()
     vals = Values(value_pool())
     vals.check_classes(ctx)
     svals = Values(["x", "y", "z"])
@@ -1004,6 +1329,7 @@ def run(ctx):
         ctx.violations[n_vio:] = sorted(ctx.violations[n_vio:], key=lambda v: rank.get(v.signature, 99))
     tm["coq"] = round(time.time() - t0, 2)
     ctx.extra["timing_s"] = tm
+    ctx.extra["input_dimensions"] = dict(sorted(DIMS.items()))
     ctx.extra["streams"] = {"diff": len(d_items), "patch": len(p_items), "merge": len(m_items),
                             "sweep_rows": len(s_items) + len(s3_items) + len(s2_items), "sweep_merges": n_sweep, "tree": len(t_items),
                             "merge_evaluations_before_sweep": n_merge_eval}
